@@ -319,11 +319,12 @@ class Cleanup:
 
     @staticmethod
     def suppress_main_guard(
-        source: str, match: Callable = regex.compile(r"if +__name__ *== *.__main__. *:").match
+        source: str,
+        guard: str = ast.dump(ast.parse("__name__ == '__main__'", mode="eval").body),
     ) -> str:
         """Suppress the `if __name__ == '__main__'` block (and only this block).
 
-        Argument `match` [not to be explicitly provided.](developer_manual/index.html#default-argument-trick)
+        Argument `guard` [not to be explicitly provided.](developer_manual/index.html#default-argument-trick)
         """
         try:
             statements = ast.parse(source).body
@@ -331,7 +332,7 @@ class Cleanup:
             return source
         lines = source.split("\n")
         for node in reversed(statements):
-            if isinstance(node, ast.If) and match(lines[node.lineno - 1]):
+            if isinstance(node, ast.If) and ast.dump(node.test) == guard:
                 del lines[node.lineno - 1 : node.end_lineno]
         return "\n".join(lines)
 
